@@ -229,7 +229,7 @@ def model_term(o):
     elif cls == "undec:epoch13":
         k = "KForged"
     elif cls == "undec:ccs-epoch":
-        return None  # outcome depends on the claimed epoch (Recv.recv models it; not a one-kind prediction)
+        k = "KForged"  # C08_ccs_undecodable_no_output: no output whatever epoch it claims (82cb644)
     elif cls.startswith("undec:"):
         k = "KUndecHs" if cls == "undec:hs" else ("KUndecContent" if o.get("fresh") else "KUndecStale")
     e = o["eff"]
